@@ -62,6 +62,14 @@ pub fn inputs(thorough: bool) -> Vec<Input> {
             v.push(Input { key: format!("lead|{}", esc(&p)), src: format!("{p}@compute @workgroup_size(1) fn main() {{}}") });
         }
     }
+    // long runs of multi-byte characters: whatever chunking the output path uses (pipe reads of 4 KiB / 64 KiB),
+    // some character straddles a boundary; 4 leading offsets x 3 character widths
+    for (cname, ch) in [("2byte", '\u{e9}'), ("3byte", '\u{20ac}'), ("4byte", '\u{1F980}')] {
+        for lead in 0..4usize {
+            let run: String = std::iter::repeat(ch).take(24_000).collect();
+            v.push(Input { key: format!("long-run|{cname}|lead={lead}"), src: format!("//{}{run}\n@compute @workgroup_size(1) fn main() {{}}\n", "x".repeat(lead)) });
+        }
+    }
     // non-ASCII identifiers
     for id in ["\u{e9}t\u{e9}", "\u{4e2d}\u{6587}", "a\u{301}b", "\u{394}x", "\u{10400}z"] {
         v.push(Input { key: format!("ident|{}", esc(id)), src: format!("struct {id}S {{ {id}: f32 }};\n@group(0) @binding(0) var<uniform> {id}_v: {id}S;\n@compute @workgroup_size(1) fn {id}_main() {{ let {id}_l = {id}_v.{id}; }}\n") });
